@@ -25,6 +25,7 @@ let () =
   let cfg = ref { c_k = N0; c_lat = nat_of_int 1; c_dual = false; c_lvlF = N0; c_lvlE = N0 } in
   let st = ref (init !cfg) in
   let tst = ref (tinit !cfg) in
+  let ft = ref false and in_strm = ref false in
   (try
      while true do
        let line = input_line ic in
@@ -51,7 +52,7 @@ let () =
          let get name = let r = ref 0 in
            List.iter (fun t -> match kv t with Some (k, v) when k = name -> (try r := int_of_string v with _ -> ()) | _ -> ()) rest; !r in
          cfg := { c_k = n_of_int (get "k"); c_lat = nat_of_int (get "L"); c_dual = false; c_lvlF = N0; c_lvlE = N0 };
-         tst := tinit !cfg;
+         tst := tinit !cfg; in_strm := false;
          output_string oc (lhs ^ "\n")
        | [ "t"; pr; data; po; pc; cut; prb; oc_; orb ] ->
          let ev = { te_pushReq = (pr = "1"); te_data = n_of_int (int_of_string data); te_commit = (pc = "1");
@@ -61,6 +62,18 @@ let () =
          Printf.fprintf oc "%s | %s %s %s\n" lhs (b2s o.to_full) (b2s o.to_empty)
            (match o.to_peek with Some v -> string_of_int (int_of_n v) | None -> "X");
          tst := tstep !cfg !tst ev
+       | "S" :: _id :: rest ->
+         let get name = let r = ref 0 in
+           List.iter (fun t -> match kv t with Some (k, v) when k = name -> (try r := int_of_string v with _ -> ()) | _ -> ()) rest; !r in
+         cfg := { c_k = n_of_int (get "k"); c_lat = nat_of_int (get "L"); c_dual = false; c_lvlF = N0; c_lvlE = N0 };
+         st := init !cfg; ft := (get "ft" <> 0); in_strm := true;
+         output_string oc (lhs ^ "\n")
+       | [ "s"; v; data; r ] when !in_strm ->
+         let i = { si_valid = (v = "1"); si_data = n_of_int (int_of_string data); si_ready = (r = "1") } in
+         let o = strm_out !ft !st i in
+         Printf.fprintf oc "%s | %s %s %s\n" lhs (b2s o.so_ready) (b2s o.so_valid)
+           (match o.so_data with Some x -> string_of_int (int_of_n x) | None -> "X");
+         st := strm_step !cfg !ft !st i
        | ("s" | "a") :: _ -> output_string oc (line ^ "\n")
        | [ "G"; w; x ] ->
          let xi = n_of_int (int_of_string x) in
